@@ -305,11 +305,14 @@ outer:
 			case *ssa.Phi, *ssa.DebugRef:
 			case *ssa.UnOp:
 				if x.Op == token.MUL {
-					if key := ex.cellKey(st, st.term(x.X)); key != "" {
-						if v, ok := st.cells[key]; ok {
-							setVal(st.vals, x, st.frame, st.epoch, v)
-						}
+					if v, ok := ex.loadCell(st, st.term(x.X), 0); ok {
+						setVal(st.vals, x, st.frame, st.epoch, v)
 					}
+				}
+			case *ssa.Field:
+				// a field of a struct value that is a copy of a literal built on this path
+				if v, ok := ex.fieldOfValue(st, st.term(x.X), x.Field, 0); ok {
+					setVal(st.vals, x, st.frame, st.epoch, v)
 				}
 			case *ssa.Store:
 				if key := ex.cellKey(st, st.term(x.Addr)); key != "" {
@@ -552,6 +555,66 @@ func (ex *Explorer) calleesOf(st *state, call *ssa.Call) []*calleeInfo {
 		return nil
 	}
 	return one(v, 0)
+}
+
+// loadCell: what the path last stored at an address — directly, or as a field of a struct value that was stored
+// there as a whole (a value receiver spilled into a local, a struct copied from a literal).
+func (ex *Explorer) loadCell(st *state, addr Term, depth int) (Term, bool) {
+	if depth > 6 {
+		return Term{}, false
+	}
+	if key := ex.cellKey(st, addr); key != "" {
+		if v, ok := st.cells[key]; ok {
+			return v, true
+		}
+	}
+	a := ex.resolve(st.vals, st.tuples, addr)
+	if fa, ok := a.V.(*ssa.FieldAddr); ok {
+		// the struct the field belongs to was stored as a whole
+		if whole, ok := ex.loadCell(st, a.Sub(fa.X), depth+1); ok {
+			return ex.fieldOfValue(st, whole, fa.Field, depth+1)
+		}
+	}
+	return Term{}, false
+}
+
+// fieldOfValue: field i of a struct value: the value is a load of a cell whose field was stored on the path.
+func (ex *Explorer) fieldOfValue(st *state, val Term, field int, depth int) (Term, bool) {
+	if depth > 6 {
+		return Term{}, false
+	}
+	v := ex.resolve(st.vals, st.tuples, val)
+	// the zero value of a struct type: its fields are zero
+	if c, ok := v.V.(*ssa.Const); ok && c.Value == nil {
+		if stt, ok := c.Type().Underlying().(*types.Struct); ok && field < stt.NumFields() {
+			return Term{V: zeroConst(stt.Field(field).Type()), F: v.F, E: v.E}, true
+		}
+	}
+	if ld, ok := v.V.(*ssa.UnOp); ok && ld.Op == token.MUL {
+		if key := ex.cellKey(st, v.Sub(ld.X)); key != "" {
+			if fv, ok := st.cells[fmt.Sprintf("%s.%d", key, field)]; ok {
+				return fv, true
+			}
+			if whole, ok := st.cells[key]; ok {
+				return ex.fieldOfValue(st, whole, field, depth+1)
+			}
+		}
+	}
+	return Term{}, false
+}
+
+func zeroConst(t types.Type) *ssa.Const {
+	if b, ok := t.Underlying().(*types.Basic); ok {
+		switch {
+		case b.Info()&types.IsInteger != 0:
+			return ssa.NewConst(constant.MakeInt64(0), t)
+		case b.Info()&types.IsString != 0:
+			return ssa.NewConst(constant.MakeString(""), t)
+		case b.Info()&types.IsBoolean != 0:
+			return ssa.NewConst(constant.MakeBool(false), t)
+		}
+	}
+	return ssa.NewConst(nil, t)
 }
 
 // cellKey names the memory cell an address denotes, for the cells whose content is tracked along a path: local
